@@ -127,14 +127,48 @@ pub fn init_chain(dir: &str) -> Chain {
 	.expect("chain init")
 }
 
+/// One transaction of the model: input / output commitment ids and the kernel code (`lock`).
+#[derive(Clone, Debug, Default)]
+pub struct TxD {
+	pub ins: Vec<u64>,
+	pub outs: Vec<u64>,
+	pub lock: u64,
+}
+
+impl TxD {
+	fn from_json(v: &Value) -> TxD {
+		let arr = |x: &Value| -> Vec<u64> {
+			x.as_array()
+				.map(|a| a.iter().map(|y| y.as_u64().unwrap()).collect())
+				.unwrap_or_default()
+		};
+		if v.is_null() {
+			return TxD::default();
+		}
+		TxD {
+			ins: arr(&v["ins"]),
+			outs: arr(&v["outs"]),
+			lock: v["lock"].as_u64().unwrap_or(0),
+		}
+	}
+	fn has_tx(&self) -> bool {
+		!self.outs.is_empty()
+	}
+}
+
 pub struct Blk {
 	pub parent: u64,
 	pub height: u64,
 	pub diff: u64,
-	pub ins: Vec<u64>,
-	pub outs: Vec<u64>,
-	pub lock: u64,
+	pub tx: TxD,
+	pub tx2: TxD, // second transaction of the block (empty = none)
 	pub flag: String,
+}
+
+impl Blk {
+	fn txs(&self) -> Vec<&TxD> {
+		[&self.tx, &self.tx2].iter().filter(|t| t.has_tx()).cloned().collect()
+	}
 }
 
 pub struct World {
@@ -156,20 +190,14 @@ fn parse_tree(beh: &Value) -> (BTreeMap<u64, Blk>, HashMap<u64, u64>) {
 		_ => panic!("tree"),
 	};
 	for (id, v) in entries {
-		let arr = |x: &Value| -> Vec<u64> {
-			x.as_array()
-				.map(|a| a.iter().map(|y| y.as_u64().unwrap()).collect())
-				.unwrap_or_default()
-		};
 		tree.insert(
 			id,
 			Blk {
 				parent: v["parent"].as_u64().unwrap(),
 				height: v["height"].as_u64().unwrap(),
 				diff: v["diff"].as_u64().unwrap(),
-				ins: arr(&v["tx"]["ins"]),
-				outs: arr(&v["tx"]["outs"]),
-				lock: v["tx"]["lock"].as_u64().unwrap(),
+				tx: TxD::from_json(&v["tx"]),
+				tx2: TxD::from_json(&v["tx2"]),
 				flag: v["flag"].as_str().unwrap().to_string(),
 			},
 		);
@@ -184,11 +212,7 @@ fn parse_tree(beh: &Value) -> (BTreeMap<u64, Blk>, HashMap<u64, u64>) {
 }
 
 fn block_fee(b: &Blk) -> u64 {
-	if b.outs.is_empty() {
-		0
-	} else {
-		1
-	}
+	b.txs().len() as u64
 }
 
 fn commit_value_units(w_tree: &BTreeMap<u64, Blk>, pool: &HashMap<u64, u64>, c: u64) -> u64 {
@@ -199,7 +223,7 @@ fn commit_value_units(w_tree: &BTreeMap<u64, Blk>, pool: &HashMap<u64, u64>, c: 
 	}
 }
 
-fn build_tx(tree: &BTreeMap<u64, Blk>, pool: &HashMap<u64, u64>, b: &Blk) -> Transaction {
+fn build_tx(tree: &BTreeMap<u64, Blk>, pool: &HashMap<u64, u64>, b: &TxD) -> Transaction {
 	let key = format!(
 		"{:?}|{:?}|{}|{:?}",
 		b.ins,
@@ -262,6 +286,14 @@ fn build_tx(tree: &BTreeMap<u64, Blk>, pool: &HashMap<u64, u64>, b: &Blk) -> Tra
 	tx
 }
 
+/// The fixed kernel excess of NRD key `key` (see build_tx).
+fn nrd_excess(key: u64) -> Commitment {
+	let secp = static_secp_instance();
+	let secp = secp.lock();
+	let skey = SecretKey::from_slice(&secp, &[40 + key as u8; 32]).unwrap();
+	secp.commit(0, skey).unwrap()
+}
+
 fn flip(h: &Hash) -> Hash {
 	let mut v = h.to_vec();
 	v[0] ^= 0x55;
@@ -277,7 +309,7 @@ pub fn build_world(beh: &Value, dir: &str) -> World {
 	let tkey = format!(
 		"{}|{:?}",
 		trunk,
-		(1..=trunk).map(|k| (tree[&k].ins.clone(), tree[&k].outs.clone(), tree[&k].diff)).collect::<Vec<_>>()
+		(1..=trunk).map(|k| (tree[&k].tx.ins.clone(), tree[&k].tx.outs.clone(), tree[&k].diff)).collect::<Vec<_>>()
 	);
 	let mut cached: Option<Vec<Block>> = None;
 	if trunk >= TEMPLATE_FROM {
@@ -317,11 +349,8 @@ pub fn build_world(beh: &Value, dir: &str) -> World {
 			continue;
 		}
 		let prev = blocks[&b.parent].header.clone();
-		let txs: Vec<Transaction> = if b.outs.is_empty() {
-			vec![]
-		} else {
-			vec![build_tx(&tree, &pool, b)]
-		};
+		// Block::new aggregates the (disjoint) transactions: union of inputs / outputs, one kernel each
+		let txs: Vec<Transaction> = b.txs().iter().map(|t| build_tx(&tree, &pool, t)).collect();
 		let over = if b.flag == "badSums" { 1 } else { 0 };
 		let rw = reward_for(*id, block_fee(b) + over);
 		let cb_commit = rw.0.commitment();
@@ -343,6 +372,11 @@ pub fn build_world(beh: &Value, dir: &str) -> World {
 		match b.flag.as_str() {
 			"badRoot" => blk.header.output_root = flip(&blk.header.output_root),
 			"badKernelRoot" => blk.header.kernel_root = flip(&blk.header.kernel_root),
+			"badRproofRoot" => blk.header.range_proof_root = flip(&blk.header.range_proof_root),
+			"badKernelSize" => {
+				let l = pmmr::n_leaves(blk.header.kernel_mmr_size) + 1;
+				blk.header.kernel_mmr_size = pmmr::insertion_to_pmmr_index(l);
+			}
 			"badSize" => {
 				let l = pmmr::n_leaves(blk.header.output_mmr_size) + 1;
 				blk.header.output_mmr_size = pmmr::insertion_to_pmmr_index(l);
@@ -416,7 +450,16 @@ fn ids(v: &Value) -> BTreeSet<u64> {
 /// Compare the real chain with the model projection; push mismatches.
 /// `obs` receives differences in behaviour that no listed property speaks about (body tail, adapter
 /// notifications): recorded in the evidence, never a violation.
-fn compare(w: &World, chain: &Chain, proj: &Value, step: usize, mism: &mut Vec<Value>, obs_only: &mut Vec<Value>, deep: bool) {
+fn compare(
+	w: &World,
+	chain: &Chain,
+	proj: &Value,
+	step: usize,
+	mism: &mut Vec<Value>,
+	obs_only: &mut Vec<Value>,
+	deep: bool,
+	known_pos: &mut HashMap<u64, u64>,
+) {
 	let mut bad = |what: &str, exp: Value, obs: Value| {
 		mism.push(json!({"step": step, "what": what, "expected": exp, "observed": obs}));
 	};
@@ -436,10 +479,13 @@ fn compare(w: &World, chain: &Chain, proj: &Value, step: usize, mism: &mut Vec<V
 		exp_unspent.insert(u["c"].as_u64().unwrap(), u["h"].as_u64().unwrap());
 	}
 	let mut obs_unspent: BTreeMap<u64, u64> = BTreeMap::new();
+	let mut pos_of: BTreeMap<u64, u64> = BTreeMap::new(); // model commit id -> real position (1-based) of the unspent instance
 	for (c, commit) in &w.commit_of {
 		match chain.get_unspent(*commit) {
 			Ok(Some((oid, pos))) => {
 				obs_unspent.insert(*c, pos.height);
+				pos_of.insert(*c, pos.pos);
+				known_pos.insert(*c, pos.pos);
 				// the position must hold exactly this output
 				match chain.get_unspent_output_at(pos.pos - 1) {
 					Ok(o) => {
@@ -467,10 +513,140 @@ fn compare(w: &World, chain: &Chain, proj: &Value, step: usize, mism: &mut Vec<V
 	if Some(nleaves) != proj["nleaves"].as_u64() {
 		bad("nleaves", proj["nleaves"].clone(), json!(nleaves));
 	}
-	// enumeration of the unspent set by position agrees with the count
-	if let Ok((_, _, outs)) = chain.unspent_outputs_by_pmmr_index(1, 10_000, None) {
-		if outs.len() != exp_unspent.len() {
-			bad("unspent_enum_count", json!(exp_unspent.len()), json!(outs.len()));
+	// sizes of the kernel and range-proof MMRs the model predicts (one kernel per block and per transaction)
+	{
+		let ts = chain.txhashset();
+		let ts = ts.read();
+		let nk = pmmr::n_leaves(ts.kernel_mmr_size());
+		if let Some(e) = proj["nkernels"].as_u64() {
+			if nk != e {
+				bad("nkernels", json!(e), json!(nk));
+			}
+		}
+		if ts.rangeproof_mmr_size() != ts.output_mmr_size() {
+			bad("rproof_mmr_size", json!(ts.output_mmr_size()), json!(ts.rangeproof_mmr_size()));
+		}
+	}
+	// head of the recent-kernel (NRD) index per excess key = the model's latest occurrence on the best chain
+	if let Some(tops) = proj["nrdtop"].as_array() {
+		use grin_chain::linked_list::ListIndex;
+		let store = chain.store();
+		let batch = store.batch();
+		if let Ok(batch) = &batch {
+			let idx = grin_chain::store::nrd_recent_kernel_index();
+			for (j, e) in tops.iter().enumerate() {
+				let key = j as u64 + 1;
+				let obs = match idx.peek_pos(batch, nrd_excess(key)) {
+					Ok(Some(p)) => p.height as i64,
+					Ok(None) => -1,
+					Err(_) => -2,
+				};
+				if Some(obs) != e.as_i64() {
+					bad("nrd_index_head", json!({"key": key, "height": e}), json!(obs));
+				}
+			}
+		}
+	}
+	// Enumeration of the unspent set (Chain::unspent_outputs_by_pmmr_index) = EnumOf / EnumPage / EnumUpTo of the model:
+	// the unspent outputs in MMR order (block-wise: the order inside one block is by commitment bytes), with the
+	// range proofs they were created with; the same set whatever the page size; bounded by the output MMR size of an
+	// ancestor exactly the currently unspent outputs created up to it.  An error is a mismatch.
+	if exp_unspent == obs_unspent {
+		let id_of_commit: HashMap<Commitment, u64> = w.commit_of.iter().map(|(c, k)| (*k, *c)).collect();
+		let to_ids = |outs: &Vec<Output>| -> Vec<Value> {
+			outs.iter().map(|o| json!(id_of_commit.get(&o.commitment()))).collect()
+		};
+		// expected order: by the real position (cross-checked above against the model height by height)
+		let mut by_pos: Vec<(u64, u64)> = pos_of.iter().map(|(c, p)| (*p, *c)).collect();
+		by_pos.sort();
+		let exp_seq: Vec<Value> = by_pos.iter().map(|(_, c)| json!(c)).collect();
+		// ... which must be the model's MMR order block by block
+		if let Some(en) = proj["enum"].as_array() {
+			let hs_model: Vec<u64> = en.iter().map(|c| exp_unspent[&c.as_u64().unwrap()]).collect();
+			let hs_real: Vec<u64> = by_pos.iter().map(|(_, c)| exp_unspent[c]).collect();
+			let mut a: Vec<u64> = en.iter().map(|c| c.as_u64().unwrap()).collect();
+			let mut b: Vec<u64> = by_pos.iter().map(|(_, c)| *c).collect();
+			a.sort();
+			b.sort();
+			if hs_model != hs_real || a != b {
+				bad("unspent_enum_order", json!(en), json!(exp_seq));
+			}
+		}
+		let size = chain.txhashset().read().output_mmr_size();
+		match chain.unspent_outputs_by_pmmr_index(1, 10_000, None) {
+			Ok((_, last, outs)) => {
+				if to_ids(&outs) != exp_seq {
+					bad("unspent_enum", json!(exp_seq), json!(to_ids(&outs)));
+				} else {
+					for o in &outs {
+						if let Some(orig) = w.outputs.get(&o.commitment()) {
+							if orig.proof != o.proof || orig.features() != o.features() {
+								bad("unspent_enum_proof", json!(id_of_commit.get(&o.commitment())), json!("differs"));
+								break;
+							}
+						}
+					}
+				}
+				if last != size {
+					bad("unspent_enum_last_index", json!(size), json!(last));
+				}
+			}
+			Err(e) => bad("unspent_enum_err", json!("ok"), json!(format!("{:?}", e))),
+		}
+		// pages of 1..3 outputs, each resumed behind the position the previous one returned
+		let page = 1 + (step as u64 % 3);
+		let mut start = 1u64;
+		let mut walked: Vec<Value> = vec![];
+		let mut err: Option<String> = None;
+		let mut guard = 0;
+		while start <= size && guard < 20_000 {
+			guard += 1;
+			match chain.unspent_outputs_by_pmmr_index(start, page, None) {
+				Ok((ret, _, outs)) => {
+					if outs.len() as u64 > page {
+						err = Some(format!("page of {} holds {}", page, outs.len()));
+						break;
+					}
+					walked.extend(to_ids(&outs));
+					if ret < start {
+						err = Some(format!("no progress: start {} returned {}", start, ret));
+						break;
+					}
+					start = ret + 1;
+				}
+				Err(e) => {
+					err = Some(format!("{:?}", e));
+					break;
+				}
+			}
+		}
+		if let Some(e) = err {
+			bad("unspent_enum_paged_err", json!("ok"), json!(e));
+		} else if walked != exp_seq {
+			bad("unspent_enum_paged", json!({"page": page, "seq": exp_seq}), json!(walked));
+		}
+		// bounded by the output MMR size of an ancestor of the head
+		if let (Some(a), Some(cs)) = (proj["enumAt"]["b"].as_u64(), proj["enumAt"]["cs"].as_array()) {
+			let upto = w.blocks[&a].header.output_mmr_size;
+			let exp_b: Vec<Value> = by_pos
+				.iter()
+				.filter(|(_, c)| cs.iter().any(|x| x.as_u64() == Some(*c)))
+				.map(|(_, c)| json!(c))
+				.collect();
+			if exp_b.len() != cs.len() {
+				bad("unspent_enum_bounded_model", json!(cs), json!(exp_b));
+			}
+			match chain.unspent_outputs_by_pmmr_index(1, 10_000, Some(upto)) {
+				Ok((_, last, outs)) => {
+					if to_ids(&outs) != exp_b {
+						bad("unspent_enum_bounded", json!({"ancestor": a, "seq": exp_b}), json!(to_ids(&outs)));
+					}
+					if last != upto {
+						bad("unspent_enum_bounded_last_index", json!(upto), json!(last));
+					}
+				}
+				Err(e) => bad("unspent_enum_bounded_err", json!("ok"), json!(format!("{:?}", e))),
+			}
 		}
 	}
 	if let Some(t) = proj["tail"].as_i64() {
@@ -548,7 +724,47 @@ fn compare(w: &World, chain: &Chain, proj: &Value, step: usize, mism: &mut Vec<V
 	}
 }
 
-fn replay_one(beh: &Value, dir: &str, deep_every: bool, twin: bool) -> Value {
+/// Best-chain state a failing / non-head-moving call must leave alone (C06 RejectLeavesState on the real node):
+/// the four state roots, the three MMR sizes, and for the given best-chain blocks the stored running sums and
+/// spend records, by value.
+fn snapshot(w: &World, chain: &Chain, best: &BTreeSet<u64>) -> BTreeMap<String, String> {
+	let mut m = BTreeMap::new();
+	{
+		let ts = chain.txhashset();
+		let ts = ts.read();
+		match ts.roots() {
+			Ok(r) => {
+				m.insert("output_root".to_string(), format!("{:?}", r.output_roots.pmmr_root));
+				m.insert("bitmap_root".to_string(), format!("{:?}", r.output_roots.bitmap_root));
+				m.insert("rproof_root".to_string(), format!("{:?}", r.rproof_root));
+				m.insert("kernel_root".to_string(), format!("{:?}", r.kernel_root));
+			}
+			Err(e) => {
+				m.insert("roots".to_string(), format!("{:?}", e));
+			}
+		}
+		m.insert("output_mmr_size".to_string(), ts.output_mmr_size().to_string());
+		m.insert("rproof_mmr_size".to_string(), ts.rangeproof_mmr_size().to_string());
+		m.insert("kernel_mmr_size".to_string(), ts.kernel_mmr_size().to_string());
+	}
+	let store = chain.store();
+	if let Ok(batch) = store.batch() {
+		for b in best {
+			if let Some(blk) = w.blocks.get(b) {
+				let h = blk.hash();
+				m.insert(format!("sums:{}", b), format!("{:?}", chain.get_block_sums(&h).map(|s| (s.utxo_sum, s.kernel_sum)).map_err(|_| "missing")));
+				if *b != 0 {
+					m.insert(format!("spent:{}", b), format!("{:?}", batch.get_spent_index(&h).map_err(|_| "missing")));
+				}
+			}
+		}
+	}
+	m
+}
+
+fn replay_one(beh: &Value, dir: &str, deep_every: bool, twin: bool, vfail: bool) -> Value {
+	// the node's NRD feature flag follows the behaviour's shape ("nrdoff": NRD kernels are minted but the flag is off)
+	global::set_local_nrd_enabled(beh["shapes"].as_str() != Some("nrdoff"));
 	let _ = std::fs::remove_dir_all(dir);
 	std::fs::create_dir_all(dir).unwrap();
 	let w = build_world(beh, dir);
@@ -568,11 +784,15 @@ fn replay_one(beh: &Value, dir: &str, deep_every: bool, twin: bool) -> Value {
 	}
 	let mut mism: Vec<Value> = vec![];
 	let mut obs_only: Vec<Value> = vec![];
+	let mut known_pos: HashMap<u64, u64> = HashMap::new();
 	let steps = beh["steps"].as_array().unwrap();
 	let mut classes = vec![];
+	let mut prev_head: Option<u64> = Some(trunk);
+	let mut prev_best: BTreeSet<u64> = path_to(&w.tree, trunk).into_iter().collect();
 	for (i, s) in steps.iter().enumerate() {
 		let k = s["k"].as_str().unwrap();
 		let b = s["b"].as_u64().unwrap();
+		let pre = snapshot(&w, chain.as_ref().unwrap(), &prev_best);
 		let res = match k {
 			"ProcessHeader" => {
 				let c = chain.as_ref().unwrap();
@@ -604,7 +824,21 @@ fn replay_one(beh: &Value, dir: &str, deep_every: bool, twin: bool) -> Value {
 						.iter()
 						.map(|e| json!({"b": e["b"], "st": e["st"], "fp": if e["st"] == "next" { Value::Null } else { e["fp"].clone() }}))
 						.collect();
-					if obs != expv {
+					// C03 observes "ChainAdapter::block_accepted status per delivery".  Verdict: one notification per
+					// accepted block of the call (the block, then the retried orphans) in order; Fork iff that block
+					// did not become the head; the fork point of a Fork.  Next-vs-Reorg (computed against the header
+					// chain, DESIGN 9.3) stays an observation outside the properties.
+					let coarse = |v: &Vec<Value>| -> Vec<Value> {
+						v.iter()
+							.map(|e| {
+								let fork = e["st"] == "fork";
+								json!({"b": e["b"], "st": if fork { "fork" } else { "head" }, "fp": if fork { e["fp"].clone() } else { Value::Null }})
+							})
+							.collect()
+					};
+					if coarse(&obs) != coarse(&expv) {
+						mism.push(json!({"step": i, "what": "notifications", "b": b, "expected": coarse(&expv), "observed": coarse(&obs)}));
+					} else if obs != expv {
 						obs_only.push(json!({"step": i, "what": "notifications", "expected": expv, "observed": obs}));
 					}
 				}
@@ -704,30 +938,91 @@ fn replay_one(beh: &Value, dir: &str, deep_every: bool, twin: bool) -> Value {
 			"QueryTx" => {
 				// the pool-facing queries on a transaction built from the model's description
 				let c = chain.as_ref().unwrap();
-				let arr = |x: &Value| -> Vec<u64> { x.as_array().map(|a| a.iter().map(|y| y.as_u64().unwrap()).collect()).unwrap_or_default() };
-				let qb = Blk {
-					parent: 0,
-					height: 0,
-					diff: 1,
-					ins: arr(&s["tx"]["ins"]),
-					outs: arr(&s["tx"]["outs"]),
-					lock: s["tx"]["lock"].as_u64().unwrap(),
-					flag: "ok".into(),
-				};
+				let c_get_pos = |commit: &Commitment| -> Option<u64> { c.get_unspent(*commit).ok().flatten().map(|x| x.1.pos) };
+				let q1 = TxD::from_json(&s["tx"]);
+				let q2 = TxD::from_json(&s["tx2"]);
+				let id_of_commit: HashMap<Commitment, u64> = w.commit_of.iter().map(|(c, k)| (*k, *c)).collect();
 				let r = std::panic::catch_unwind(std::panic::AssertUnwindSafe(|| {
-					let tx = build_tx(&w.tree, &w.pool, &qb);
-					(c.validate_tx(&tx).is_ok(), c.verify_coinbase_maturity(&tx.inputs()).is_ok(), c.verify_tx_lock_height(&tx).is_ok())
+					let mut tx = build_tx(&w.tree, &w.pool, &q1);
+					if q2.has_tx() {
+						// what the pool holds after aggregation: both kernels in one transaction
+						tx = grin_core::core::transaction::aggregate(&[tx, build_tx(&w.tree, &w.pool, &q2)]).expect("aggregate");
+					}
+					// Chain::validate_inputs: the outputs the inputs would spend, with position and creation height
+					let vi = c.validate_inputs(&tx.inputs()).map(|v| {
+						let mut x: Vec<(Option<u64>, u64, u64)> = v.iter().map(|(oid, p)| (id_of_commit.get(&oid.commitment()).cloned(), p.height, p.pos)).collect();
+						x.sort();
+						x
+					});
+					(c.validate_tx(&tx).is_ok(), c.verify_coinbase_maturity(&tx.inputs()).is_ok(), c.verify_tx_lock_height(&tx).is_ok(), vi)
 				}));
 				match r {
-					Ok((u, m, l)) => {
+					Ok((u, m, l, vi)) => {
 						let exp = &s["res"];
 						let obs = json!({"utxo": u, "mat": m, "lock": l});
 						if exp["utxo"] != obs["utxo"] || exp["mat"] != obs["mat"] || exp["lock"] != obs["lock"] {
-							mism.push(json!({"step": i, "what": "tx_query", "tx": s["tx"], "expected": exp, "observed": obs}));
+							mism.push(json!({"step": i, "what": "tx_query", "tx": s["tx"], "tx2": s["tx2"], "expected": exp, "observed": obs}));
+						}
+						if let Some(found) = exp["found"].as_bool() {
+							match (&vi, found) {
+								(Ok(v), true) => {
+									let mut e: Vec<(Option<u64>, u64)> = exp["spent"].as_array().map(|a| a.iter().map(|x| (x["c"].as_u64(), x["h"].as_u64().unwrap())).collect()).unwrap_or_default();
+									e.sort();
+									let o: Vec<(Option<u64>, u64)> = v.iter().map(|x| (x.0, x.1)).collect();
+									// and the positions are the ones get_unspent reports
+									let pos_ok = v.iter().all(|x| x.0.map(|c| c_get_pos(&w.commit_of[&c]) == Some(x.2)).unwrap_or(false));
+									if e != o || !pos_ok {
+										mism.push(json!({"step": i, "what": "validate_inputs", "tx": s["tx"], "tx2": s["tx2"], "expected": exp["spent"], "observed": format!("{:?}", v)}));
+									}
+								}
+								(Err(_), false) => {}
+								(Ok(v), false) => mism.push(json!({"step": i, "what": "validate_inputs", "tx": s["tx"], "tx2": s["tx2"], "expected": "err", "observed": format!("{:?}", v)})),
+								(Err(e), true) => mism.push(json!({"step": i, "what": "validate_inputs", "tx": s["tx"], "tx2": s["tx2"], "expected": exp["spent"], "observed": format!("{:?}", e)})),
+							}
 						}
 						"query".to_string()
 					}
 					Err(_) => "panic".to_string(),
+				}
+			}
+			"Reindex" => {
+				// a restart on a damaged output_pos index: entries lost, stale / misdirected entries present
+				let damaged = std::panic::catch_unwind(std::panic::AssertUnwindSafe(|| -> Result<(), ChainError> {
+					let c = chain.as_ref().unwrap();
+					let size = c.txhashset().read().output_mmr_size();
+					let store = c.store();
+					let mut batch = store.batch()?;
+					for d in ids(&s["del"]) {
+						batch.delete_output_pos_height(&w.commit_of[&d])?;
+					}
+					for st in s["stale"].as_array().cloned().unwrap_or_default() {
+						let key = st["c"].as_u64().unwrap();
+						// the position the key is pointed at: the (unspent) instance of another commitment, the last
+						// position a spent one was seen at, or one beyond the MMR
+						let pos = match st["at"].as_u64() {
+							Some(at) if st["live"].as_bool() == Some(true) => c.get_unspent(w.commit_of[&at])?.map(|x| x.1.pos).unwrap_or(size + 3),
+							Some(at) => known_pos.get(&at).cloned().unwrap_or(size + 3),
+							None => size + 3,
+						};
+						// (an entry that happens to be the key's own correct one is no damage: the rebuild cannot and
+						// need not re-derive the height of an entry it keeps)
+						if c.get_unspent(w.commit_of[&key])?.map(|x| x.1.pos) == Some(pos) {
+							continue;
+						}
+						batch.save_output_pos_height(&w.commit_of[&key], grin_chain::types::CommitPos { pos, height: 1 })?;
+					}
+					batch.commit()?;
+					Ok(())
+				}));
+				chain = None;
+				let ad = adapter.clone();
+				match (damaged, std::panic::catch_unwind(std::panic::AssertUnwindSafe(|| init_chain_rec(&node_dir, ad)))) {
+					(Ok(Ok(())), Ok(c)) => {
+						chain = Some(c);
+						"ok".to_string()
+					}
+					(Ok(Err(e)), _) => panic!("could not damage the index: {:?}", e),
+					_ => "panic".to_string(),
 				}
 			}
 			"Reopen" => {
@@ -752,7 +1047,33 @@ fn replay_one(beh: &Value, dir: &str, deep_every: bool, twin: bool) -> Value {
 			break;
 		}
 		let last = i + 1 == steps.len();
-		compare(&w, chain.as_ref().unwrap(), &s["proj"], i, &mut mism, &mut obs_only, last || deep_every);
+		// RejectLeavesState / CompactIsStutter: whatever the call was and however it ended, if the model's head did not
+		// move the roots, sizes, stored sums and spend records of the best chain are the ones sampled before the call
+		// (compaction removes sums / spend records below the new tail: those still predicted are compared)
+		let cur_best = ids(&s["proj"]["bestsums"]);
+		if s["proj"]["head"].as_u64() == prev_head {
+			let post = snapshot(&w, chain.as_ref().unwrap(), &prev_best);
+			for (key, v) in &pre {
+				let is_blk = key.starts_with("sums:") || key.starts_with("spent:");
+				if is_blk {
+					let id: u64 = key.split(':').nth(1).unwrap().parse().unwrap();
+					if !cur_best.contains(&id) {
+						continue;
+					}
+				}
+				if post.get(key) != Some(v) {
+					let what = format!("untouched:{}", key.split(':').next().unwrap());
+					mism.push(json!({"step": i, "what": what, "k": k, "res": res, "key": key, "expected": v, "observed": post.get(key)}));
+					break;
+				}
+			}
+		}
+		prev_head = s["proj"]["head"].as_u64();
+		prev_best = cur_best;
+		// full validation (MMR hashes, roots and sizes against the head header, kernel sums, range proofs, kernel
+		// signatures) after every call that fails or does not move the head, on the sampled behaviours
+		let unmoved = res == "reject" || res == "ok_fork" || res == "known" || res == "orphan";
+		compare(&w, chain.as_ref().unwrap(), &s["proj"], i, &mut mism, &mut obs_only, last || deep_every || (vfail && unmoved), &mut known_pos);
 		if !mism.is_empty() {
 			break; // first divergence: later steps would only echo it
 		}
@@ -801,6 +1122,8 @@ fn replay(args: &Args) -> i32 {
 	let threads = args.u64("threads", 8) as usize;
 	let deep = args.get("deep").is_some();
 	let twin = args.get("twin").is_some();
+	// full validation after every failing call on every vfail-th behaviour of this process (0 = never)
+	let vfail = args.u64("vfail", 0);
 	let results: Arc<Mutex<Vec<Option<Value>>>> = Arc::new(Mutex::new(vec![None; cases.len()]));
 	let next = Arc::new(Mutex::new(0usize));
 	let mut hs = vec![];
@@ -824,7 +1147,7 @@ fn replay(args: &Args) -> i32 {
 				}
 				let dir = format!("{}/t{}", work, t);
 				let r = std::panic::catch_unwind(std::panic::AssertUnwindSafe(|| {
-					replay_one(&cases[i], &dir, deep, twin)
+					replay_one(&cases[i], &dir, deep, twin, vfail > 0 && i as u64 % vfail == 0)
 				}));
 				let v = match r {
 					Ok(v) => v,
